@@ -35,9 +35,10 @@ def execute(prog, prefix=(), **cfg):
             unfinished = True
             break
     r.unfinished = unfinished
+    closing = bool(w.closing)
     w.dispose()
-    if unfinished or w.closing:
-        del w
+    del w
+    if unfinished or closing:
         gc.collect()
     return r
 
